@@ -19,7 +19,10 @@ Inductive command :=
 | CStatus (targets : list bytes)
 | CRun (targets : list bytes) (single : bool)
 | CStageAdd (paths : list bytes)
-| CStageRm (paths : list bytes).
+| CStageRm (paths : list bytes)
+| CGraph (targets : list bytes)
+| CPush (targets : list bytes) (single : bool)      (* traversal only; the transfer is Model/Remote.v *)
+| CFetch (targets : list bytes) (single : bool).
 
 (* what a stage's shell command does: "rm -f dst; cat srcs > dst; echo tag >> .runlog" *)
 Record cmdsem := mkCmd { k_srcs : list bytes; k_dst : bytes; k_tag : bytes }.
@@ -60,14 +63,50 @@ Section WithHash.
       | Some out =>
         match put root (comps (k_dst k)) (Some (File out)) with
         | None => Err
-        | Some root1 =>
-          let old := match get root1 [runlog] with Some (File b) => b | _ => [] end in
-          match put root1 [runlog] (Some (File (old ++ k_tag k ++ [10]))) with
-          | Some root2 => Ok root2
-          | None => Err
-          end
+        | Some root1 => Ok root1     (* the execution log (.runlog) is kept outside the tree *)
         end
       end
+    end.
+
+  (* the traversal skeleton shared by graph / push / fetch: visited list, recursion stack *)
+  Fixpoint walk_stage (fuel : nat) (idx : index) (recursive : bool) (done inprog : list bytes) (sp : bytes)
+    : res (list bytes) :=
+    match fuel with
+    | O => Err
+    | S f =>
+      if mem sp done then Ok done
+      else if mem sp inprog then Err
+      else match alookup sp idx with
+           | None => Err
+           | Some stg =>
+             let fix ins (arts : list artifact) (done : list bytes) : res (list bytes) :=
+               match arts with
+               | [] => Ok done
+               | a :: r =>
+                 match find_owner idx (a_path a) with
+                 | Some (op, _) =>
+                   if recursive then
+                     match walk_stage f idx recursive done (sp :: inprog) op with
+                     | Ok done' => ins r done'
+                     | Err => Err
+                     end
+                   else ins r done
+                 | None => ins r done
+                 end
+               end in
+             match ins (s_inputs stg) done with
+             | Ok done1 => Ok (sp :: done1)
+             | Err => Err
+             end
+           end
+    end.
+
+  Definition walk_all (idx : index) (recursive : bool) (ts : list bytes) : bool :=
+    match fold_left (fun acc t => match acc with
+                                  | Ok done => walk_stage (S (List.length idx)) idx recursive done [] t
+                                  | Err => Err end) ts (Ok []) with
+    | Ok _ => true
+    | Err => false
     end.
 
   Definition strat_of (copy : bool) : strategy := if copy then Copy else Link.
@@ -163,6 +202,18 @@ Section WithHash.
         | Some ix => (mkW (w_root w) (w_cache w) (w_stages w) (map fst ix) false, true, ONone)
         | None => (w, false, ONone)
         end
+      | CGraph targets =>
+        match idx with
+        | [] => (w, false, ONone)
+        | _ => (w, walk_all idx true (all_or targets idx), ONone)
+        end
+      | CPush targets single =>
+        match idx with
+        | [] => (w, false, ONone)
+        | _ => (w, walk_all idx (match targets with [] => true | _ => negb single end) (all_or targets idx), ONone)
+        end
+      | CFetch targets single =>
+        (w, walk_all idx (match targets with [] => true | _ => negb single end) (all_or targets idx), ONone)
       | CStageRm paths =>
         let go := fold_left (fun acc p => match acc with Some ix => remove_stage ix p | None => None end)
                             paths (Some idx) in
